@@ -91,7 +91,9 @@ WORDS = ["alpha", "beta", "gamma", "delta", "omega", "kappa", "sigma", "theta", 
 
 def text_for(rng, cfg, row_name, kind, lang):
     """Unique, self-identifying text for (row, kind, language)."""
-    tag = f"{kind}.{row_name}.{lang or 'nolang'}"
+    # the marker must not contain the language name itself (a substring test on it once masked a defect)
+    code = "nolang" if lang is None else (f"L{cfg['langs'].index(lang)}" if lang in cfg.get("langs", []) else "Lx")
+    tag = f"{kind}.{row_name}.{code}"
     if cfg.get("hostile_text"):
         from .hostile import hostile
         return hostile(rng, tag)
